@@ -1,4 +1,5 @@
 import Driver.Proto
+import Driver.C03
 import Driver.C04
 import Driver.C10
 import Driver.C12
@@ -18,6 +19,7 @@ import Driver.C20
 import Driver.C20Mon
 
 def suites : List (String × Driver.Suite) :=
+  Driver.C03.suites ++
   Driver.C04.suites ++
   Driver.C10.suites ++
   Driver.C12.suites ++
